@@ -1835,6 +1835,28 @@ def _g_elf_interpreter(rng):
     return [EF.ELFFile(io.BytesIO(E.build(E.exe_for("x86_64"))))]
 
 
+def _g_validator_ctype(rng):
+    """`_process_description_content_type`: the `EmailMessage` answers are tabulated from the standard library itself"""
+    import email.message
+    from packaging import metadata as MD
+    from gen import metadata as GM
+    good, bad, esc = GM.POOLS["description_content_type"]
+    extra = ["text/plain", "TEXT/Markdown; variant=CommonMark", "text/markdown; variant=Other", "text/x-rst; charset=latin-1",
+             "text/plain; charset=UTF-8", "text/html", "", "a\nb", "text/plain; a*", "text/markdown; charset=UTF-8; variant=GFM",
+             "text/plain; variant=x", "text/markdown;variant=gfm", "Text/Plain", "text/plain; charset=utf-8"]
+    v = rng.choice((good or []) + (bad or []) + extra * 2)
+    if not isinstance(v, str) or any(0xD800 <= ord(c) <= 0xDFFF for c in v):
+        v = "text/plain"
+    m = email.message.EmailMessage()
+    try:
+        m["content-type"] = v
+        ans = (m.get_content_type().lower(), {k: x for k, x in dict(m["content-type"].params).items() if k in ("charset", "variant")})
+    except Exception as e:
+        ans = Raise(type(e).__name__)
+    oracle = Oracle([("EmailMessage.set_content_type", (v,), ans), ("str.lower", (v,), v.lower())])
+    return [oracle, MD.Metadata.__dict__["description_content_type"], v]
+
+
 _ML, _MU = "packaging._manylinux", "packaging._musllinux"
 FUNCS.update({
     "_parse_musl_version": (_MU, "_parse_musl_version", _g_parse_musl),
@@ -1850,6 +1872,9 @@ FUNCS.update({
     "ELFFile.__init__": ("packaging._elffile", "ELFFile.__init__", _g_elf_init),
     "ELFFile.interpreter": ("packaging._elffile", "ELFFile.interpreter", _g_elf_interpreter),
 })
+FUNCS["_Validator._process_description_content_type"] = ("packaging.metadata", "_Validator._process_description_content_type",
+                                                           _g_validator_ctype)
+EXT_FUNCS |= {"_Validator._process_description_content_type"}
 X6_ENV_FUNCS = {"_musllinux.platform_tags", "_is_compatible", "_manylinux.platform_tags", "_have_compatible_abi", "_get_glibc_version",
                 "_linux_platforms", "mac_platforms", "ios_platforms", "tags.platform_tags"}
 
